@@ -26,6 +26,7 @@ package main
 //   proxy_try_captures_id / proxy_global_captures_id : the timer closure of setupPerReqTimeout / onUpstreamRequestSent uses a variable
 //                          that the arming function assigned from atomic.LoadUint32(&s.ID) outside the closure (go/ast)
 //   proxy_on_reset_checks_done : downStream.OnResetStream mentions upstreamProcessDone (go/ast)
+//   proxy_disable_retry_first : the first statement of doRetryCheck reads types.VarProxyDisableRetry (go/ast)
 //   proxy_hijack_clears_body : sendHijackReply assigns downstreamRespDataBuf = nil at top level (go/ast)
 //   proxy_put_resets_cursor : streamfilter.PutStreamFilterChain (or a chain method it calls) assigns 0 to both cursors (go/ast)
 //   proxy_default_global_ms : types.GlobalTimeout (evaluated)
@@ -526,6 +527,19 @@ func genProxyTokens(repo string) (string, error) {
 		ok = false
 	}
 	fmt.Fprintf(&b, "Definition proxy_reset_reads_status : bool := %v.\n", readsStatus)
+	// --- doRetryCheck reads proxy_disable_retry in its FIRST statement (before any return that depends on the route)
+	disableFirst := false
+	if dc := FindFunc(rf, "retryState", "doRetryCheck"); dc != nil && len(dc.Body.List) > 0 {
+		ast.Inspect(dc.Body.List[0], func(n ast.Node) bool {
+			if se, isSel := n.(*ast.SelectorExpr); isSel && se.Sel.Name == "VarProxyDisableRetry" {
+				disableFirst = true
+			}
+			return true
+		})
+	} else {
+		ok = false
+	}
+	fmt.Fprintf(&b, "Definition proxy_disable_retry_first : bool := %v.\n", disableFirst)
 	// --- cluster resource manager: do Increase / Decrease count while no limit is configured (max == 0)?
 	countsUnlimited := false
 	if _, mf, err := ParseGoFile(repo, "pkg/upstream/cluster/resource_manager.go"); err == nil {
@@ -801,7 +815,7 @@ func genProxyTokens(repo string) (string, error) {
 		}
 	}
 	fmt.Fprintf(&b, "Definition proxy_default_global_ms : Z := %d.\n", int64(types.GlobalTimeout/time.Millisecond))
-	b.WriteString("Definition proxy_src : srcp :=\n  {| loop_bound := proxy_loop_bound; min_budget := proxy_min_budget; reset_guarded := proxy_reset_guarded;\n     direct_clears_again := proxy_direct_clears_again;\n     direct_cancels_retry := proxy_direct_cancels_retry; direct_resets_upstream := proxy_direct_resets_upstream;\n     put_resets_cursor := proxy_put_resets_cursor;\n     retry_checks_direct := proxy_retry_checks_direct; retry_refinalizes := proxy_retry_refinalizes;\n     timers_reset_stream := proxy_timers_reset_stream; hijack_clears_body := proxy_hijack_clears_body;\n     retry_clears_reuse := proxy_retry_clears_reuse; setupretry_clears_reuse := proxy_setupretry_clears_reuse;\n     global_lost_cas_stops := proxy_global_lost_cas_stops; append_error_continues := proxy_append_error_continues;\n     reset_excludes_global := proxy_reset_excludes_global; reset_reads_status := proxy_reset_reads_status;\n     res_counts_unlimited := proxy_res_counts_unlimited;\n     send_once_per_upreq := proxy_send_once_per_upreq; started_marked_first := proxy_started_marked_first;\n     try_captures_id := proxy_try_captures_id; global_captures_id := proxy_global_captures_id;\n     on_reset_checks_done := proxy_on_reset_checks_done;\n     reason_code := proxy_reason_code |}.\n")
+	b.WriteString("Definition proxy_src : srcp :=\n  {| loop_bound := proxy_loop_bound; min_budget := proxy_min_budget; reset_guarded := proxy_reset_guarded;\n     direct_clears_again := proxy_direct_clears_again;\n     direct_cancels_retry := proxy_direct_cancels_retry; direct_resets_upstream := proxy_direct_resets_upstream;\n     put_resets_cursor := proxy_put_resets_cursor;\n     retry_checks_direct := proxy_retry_checks_direct; retry_refinalizes := proxy_retry_refinalizes;\n     timers_reset_stream := proxy_timers_reset_stream; hijack_clears_body := proxy_hijack_clears_body;\n     retry_clears_reuse := proxy_retry_clears_reuse; setupretry_clears_reuse := proxy_setupretry_clears_reuse;\n     global_lost_cas_stops := proxy_global_lost_cas_stops; append_error_continues := proxy_append_error_continues;\n     reset_excludes_global := proxy_reset_excludes_global; reset_reads_status := proxy_reset_reads_status;\n     res_counts_unlimited := proxy_res_counts_unlimited;\n     send_once_per_upreq := proxy_send_once_per_upreq; started_marked_first := proxy_started_marked_first;\n     try_captures_id := proxy_try_captures_id; global_captures_id := proxy_global_captures_id;\n     on_reset_checks_done := proxy_on_reset_checks_done; disable_retry_first := proxy_disable_retry_first;\n     reason_code := proxy_reason_code |}.\n")
 	fmt.Fprintf(&b, "Definition ProxyTokens_translator_ok := %v.\n", ok)
 	return b.String(), nil
 }
